@@ -182,6 +182,18 @@ func H_Search_Template(p []int) {
 			}
 		case 3: // flat zig-zag: every segment spans the full width (all boxes tie along the long axis), distinct heights
 			pts[i] = Point{float64(i % 2 * 100), float64(i)}
+		case 4: // short vertical segments at x = 0.1 + 0.1*k (not dyadic: midpoints of such bounds round), each inside one half of the box
+			j := i / 2
+			x := 0.1 + 0.1*float64(j%11)
+			y := 0.05 * float64(j%8)
+			if j%3 == 2 {
+				y = 1 - y
+			}
+			if i%2 == 0 {
+				pts[i] = Point{x, y}
+			} else {
+				pts[i] = Point{x, y + 0.03}
+			}
 		default: // collinear run
 			pts[i] = Point{float64(i), 0}
 		}
